@@ -307,6 +307,24 @@ def run_shard(args):
                 cards.append((name, served, icl.parse_vcard(served)))
             res.count("cards_uploaded", len(cards))
             for i in range(args["filters"]):
+                if i in (args["filters"] // 3, 2 * args["filters"] // 3) and cards:
+                    # the address book changes between the queries: some cards are overwritten, some deleted and made again
+                    # under the same name; the answers that follow are owed to the cards as they are now
+                    fresh = gen_cards(rng, len(cards))
+                    for j in rng.sample(range(len(cards)), max(1, len(cards) // 3)):
+                        nm = cards[j][0]
+                        nb = fresh[j][2].replace(b"UID:c12-%d\r\n" % j, b"UID:c12-%d\r\n" % int(nm[1:-4]))
+                        if rng.random() < 0.4:
+                            w.call("delete", "DELETE", w.url(colpath, nm), [], None, record=False)
+                        s_, r_ = w.call("put", "PUT", w.url(colpath, nm), [("Content-Type", "text/vcard")], nb, record=False)
+                        if not W.World.success(s_.eff):
+                            res.count("rewrite_refused")
+                        st, et, served, _ = w.fetch(colpath, nm)
+                        if st == 200:
+                            cards[j] = (nm, served, icl.parse_vcard(served))
+                            res.count("cards_rewritten_between_queries")
+                        else:
+                            res.inconclusive.append("card %s unreadable after a rewrite: %s" % (nm, st))
                 flt, feat = gen_filter(rng, cards)
                 expect = {}
                 for (nm, served, card) in cards:
@@ -384,6 +402,7 @@ def check(tier, seed, t0):
     guards = [("queries", c.get("queries", 0), 3000 * k), ("(card, query) judgements", c.get("judgements", 0), 40000 * k), ("expected matches", c.get("expected_match", 0), 5000 * k),
               ("expected non-matches", c.get("expected_nomatch", 0), 5000 * k), ("address-data comparisons", c.get("address_data_compared", 0), 3000 * k), ("limited queries", c.get("limited_queries", 0), 300 * k),
               ("answers of concurrent clients sending different filters", c.get("concurrent_queries_judged", 0), 60 * (1 if not th else 6))]
+    guards += [("cards overwritten / deleted and re-created between queries", c.get("cards_rewritten_between_queries", 0), 100)]
     guards += [("cards with a folded content line", c.get("cards_served_with_a_folded_line", 0), 20), ("cards with an escaped character in a value", c.get("cards_served_with_an_escaped_character_in_a_value", 0), 20)]
     for f in ("text-match", "presence", "is-not-defined", "param-presence", "param-is-not-defined", "param-text-match", "empty-filter", "edge-whitespace-text", "ascii-casemap-lookalike"):
         guards.append(("feature " + f, c.get("feature:" + f, 0), 10))
